@@ -32,17 +32,23 @@ def is_db_guard_ty(ty):
     return "MutexGuard<" in ty and DB_FIELDS in ty
 
 
+UNLOCKED_NAMES = {UNLOCKED_FAIR, "parking_lot::lock_api::MutexGuard::unlocked"}
+BUMP = "parking_lot::lock_api::MutexGuard::bump"
+
+
 def is_unlocked_fair(cs):
-    return cs.name == UNLOCKED_FAIR and DB_FIELDS in (cs.t.get("substs") or [])
+    """a call that runs its closure argument with the DB mutex released (unlocked_fair / unlocked)"""
+    return cs.name in UNLOCKED_NAMES and DB_FIELDS in (cs.t.get("substs") or [])
 
 
 def is_wait(cs):
-    return cs.name == WAIT
+    return cs.name in (WAIT, "parking_lot::Condvar::wait_for", "parking_lot::Condvar::wait_until", "parking_lot::Condvar::wait_while")
 
 
 def is_release_point(cs):
     """A call during which the DB mutex is (temporarily or finally) released."""
-    return is_unlocked_fair(cs) or is_wait(cs) or cs.name == UNLOCK_FAIR
+    return is_unlocked_fair(cs) or is_wait(cs) or cs.name in (UNLOCK_FAIR, "parking_lot::lock_api::MutexGuard::unlock", BUMP) \
+        or cs.name in ("parking_lot::Condvar::wait_for", "parking_lot::Condvar::wait_until", "parking_lot::Condvar::wait_while")
 
 
 class LockInfo:
